@@ -163,6 +163,60 @@ def run(ctx):
             elif not same and o != "ERR BadAggregateSignature":
                 rep.add_failure("cond.sig", l, o, "ERR BadAggregateSignature", "signature for other domain constants was accepted")
     condlib.stream_stats(rep, "cond.sig", cases, [o for (f, o) in zip(final, outs) if f[3] in ("cache0", "rules-reject")])
+    # ---- the mempool pre-validation path (validate_clvm_and_signature) on spend-bundle shaped cases ----
+    nv = 60 if tier == "quick" else 1500
+    vrng = rng.fork("vcs")
+    vcases = []
+    for _ in range(nv):
+        spends = g.sc_vcs()
+        fl = vrng.choice([0, 0x20000 | 0x80000, 0x800000, 0x800000 | 0x20000 | 0x80000 | 0x2000000])
+        c = {"tree": g.bundle_tree(spends), "flags": fl, "visitor": 1, "max_cost": 11000000000, "clvm_cost": 0,
+             "tags": [t for s_ in spends for t in s_["tags"]], "scenario": "vcs", "keys": [k for s_ in spends for k in s_["keys"]],
+             "spends": spends, "std": True}
+        c["line"] = condgen.case_line(c, consts_hex, set(g.keys))
+        vcases.append(c)
+    vmodel = C.run_lines(C.VRUN(UNIT), [c["line"] for c in vcases])
+    vruns = []
+    for c, m in zip(vcases, vmodel):
+        d = condlib.parse_ok(m)
+        if d is None:
+            continue
+        pairs = []
+        if d["pairs"] != "-":
+            for pz in d["pairs"].split(","):
+                kk, mm = pz.split(":")
+                pairs.append((bytes.fromhex(kk), b"" if mm == "-" else bytes.fromhex(mm)))
+        pp = py_pairs(c, consts)
+        if pp != pairs:
+            rep.add_failure("cond.vcs/oracle", c["line"], fmt_pairs(pairs), fmt_pairs(pp), "model pairs differ from the rule table (Python)")
+        tree_hex = c["line"].split(" ")[-1]
+        def req(p):
+            return "cond.aggsign %s" % (",".join("%d:%s" % (keyidx[k], m_.hex() if m_ else "-") for k, m_ in p) if p else "-")
+        vruns.append((c, tree_hex, req(pairs), "accept"))
+        if pairs:
+            j = vrng.below(len(pairs))
+            vruns.append((c, tree_hex, req(pairs[:j] + pairs[j + 1:]), "drop"))       # one pair (possibly one of two equal ones) missing
+            vruns.append((c, tree_hex, req(pairs + [pairs[j]]), "extra-same"))          # one pair signed twice too often
+            k_, m_ = pairs[j]
+            vruns.append((c, tree_hex, req(pairs[:j] + [(k_, m_ + b"\x00")] + pairs[j + 1:]), "msg"))
+    vs = C.run_lines(C.VH(UNIT), [r_[2] for r_ in vruns])
+    vl = ["cond.vcs %d %d %s %s %s" % (r_[0]["flags"], r_[0]["max_cost"], consts_hex, sg, r_[1]) for r_, sg in zip(vruns, vs)]
+    vo = C.run_lines(C.VH(UNIT), vl)
+    stv = rep.streams.setdefault("cond.vcs", {"cases": 0, "accept_runs": 0, "tamper_runs": 0})
+    for (c, th_, rq, kind), l, o in zip(vruns, vl, vo):
+        stv["cases"] += 1
+        rep.evaluations += 1
+        rep.traces += 1
+        for t in c["tags"]:
+            rep.nontrivial.add(("cond.vcs", t[0], t[1], kind, o.split(" ")[0] if o.startswith("OK") else o))
+        if kind == "accept":
+            stv["accept_runs"] += 1
+            if not o.startswith("OK "):
+                rep.add_failure("cond.vcs", l, o, "OK", "mempool pre-validation rejected a bundle signed over exactly the prescribed pairs")
+        else:
+            stv["tamper_runs"] += 1
+            if o != "ERR BadAggregateSignature":
+                rep.add_failure("cond.vcs", l, o, "ERR BadAggregateSignature", "mempool pre-validation accepted a tampered signature set (%s)" % kind)
     # helper: make_aggsig_final_message for every bound opcode x amounts of every encoding length
     amounts = [0, 1, 127, 128, 255, 256, 32767, 32768, 2**23 - 1, 2**23, 2**31 - 1, 2**31, 2**39, 2**47, 2**55 - 1, 2**55, 2**63 - 1, 2**63, 2**64 - 1]
     hl = []
